@@ -146,6 +146,32 @@ func (w *lworld) apply(o lop) string {
 		if catch(func() { ret = l.Delete(o.x) }) != wantPanic {
 			return fmt.Sprintf("Delete(%d) on length %d: panic=%v, expected %v", o.x, n, !wantPanic, wantPanic)
 		}
+	case "Delete2":
+		// two distinct indices, in either order
+		a, b := o.x, o.y
+		if a == b {
+			return ""
+		}
+		wantPanic = a < 0 || a >= n || b < 0 || b >= n
+		if !wantPanic {
+			for i, e := range m {
+				if i != a && i != b {
+					newModel = append(newModel, e)
+				}
+			}
+			if newModel == nil {
+				newModel = []any{}
+			}
+		}
+		fluent = true
+		if catch(func() { ret = l.Delete(a, b) }) != wantPanic {
+			return fmt.Sprintf("Delete(%d,%d) on length %d: panic=%v, expected %v", a, b, n, !wantPanic, wantPanic)
+		}
+		if wantPanic {
+			// a multi-index Delete may have removed some elements before panicking: resynchronise the model
+			w.models[o.a] = snapL(l)
+			return ""
+		}
 	case "Pop":
 		wantPanic = n == 0
 		if !wantPanic {
@@ -274,6 +300,7 @@ func lopsFor(w *lworld) []lop {
 			out = append(out, lop{"Insert", a, i, 0}, lop{"Insert", a, i, 4}, lop{"Insert", a, i, 2},
 				lop{"Replace", a, i, 1}, lop{"Replace", a, i, 4}, lop{"Delete", a, i, 0}, lop{"Get", a, i, 0})
 		}
+		out = append(out, lop{"Delete2", a, 0, n - 1}, lop{"Delete2", a, n - 1, 0}, lop{"Delete2", a, 1, 2}, lop{"Delete2", a, 2, 0}, lop{"Delete2", a, 0, n}, lop{"Delete2", a, -1, 1})
 		out = append(out, lop{"Pop", a, 0, 0}, lop{"Clear", a, 0, 0}, lop{"Reverse", a, 0, 0}, lop{"Slice", a, 0, 0},
 			lop{"IndexOf", a, 0, 0}, lop{"IndexOf", a, 2, 0}, lop{"IndexOf", a, 6, 0})
 		for s := -1; s <= n+1; s++ {
